@@ -170,7 +170,7 @@ def gen_cases(rng, tier):
         if i % 6 == 4:
             feats |= {"session-multirow"}
         out.append(gen_case(rng, feats))
-    return out
+    return [G.tag_key_reuse(c) for c in out]
 
 
 class C07(Spec):
